@@ -255,10 +255,11 @@ func (m *Method) Operands() (dst, src Operand, args []Operand, ok bool) {
 	if m.Opts.Reverse {
 		srcName, dstName = "dst", "src"
 	}
-	if p0.Name() != "" {
+	// a blank name cannot be referred to: such an operand gets the default name, like an unnamed one
+	if p0.Name() != "" && p0.Name() != "_" {
 		srcName = p0.Name()
 	}
-	if r0.Name() != "" {
+	if r0.Name() != "" && r0.Name() != "_" {
 		dstName = r0.Name()
 	}
 	if m.Opts.Recv != "" {
@@ -267,7 +268,7 @@ func (m *Method) Operands() (dst, src Operand, args []Operand, ok bool) {
 	for i := 1; i < m.Sig.Params().Len(); i++ {
 		p := m.Sig.Params().At(i)
 		n := p.Name()
-		if n == "" {
+		if n == "" || n == "_" {
 			n = "arg" + itoa(i-1)
 		}
 		args = append(args, Operand{Var: n, Type: p.Type()})
